@@ -615,14 +615,15 @@ class WriterThread(threading.Thread):
 
         elif event.kind == EventKind.DELETE:
             # delete the referenced events
-            # an e tag without a value or with a value that is not hex references nothing;
-            # it must neither hide the other references nor lose the deletion event itself
+            # an e tag without a value or with a value that is not hex (or not a string at all)
+            # references nothing; it must neither hide the other references nor lose the
+            # deletion event itself
             ids = set()
             for tag in event.tags:
                 if len(tag) > 1 and tag[0] == "e":
                     try:
                         ids.add(bytes_from_hex(tag[1]))
-                    except ValueError:
+                    except (ValueError, TypeError):
                         pass
             if not ids:
                 return
